@@ -1263,6 +1263,48 @@ def replay(path: str) -> int:
     print("case:", json.dumps(obj["case"]))
     if "batch" in obj:
         print("batched case; rows:", len(obj["batch"]), "mode:", obj.get("mode"))
+    if "json" in obj and "spelling" in obj:
+        # a from_json route: the JSON document as written, against the Kingman density of the described model
+        import copy
+
+        import torchtree.evolution.coalescent as C
+        from torchtree.core.utils import process_object
+
+        js = copy.deepcopy(obj["json"])
+        dic = {}
+        try:
+            if js.get("grid") == "grid":
+                process_object({"id": "grid", "type": "Parameter", "tensor": [int(x) for x in case["grid"]]}, dic)
+            v = float(getattr(C, js["type"]).from_json(js, dic)().reshape(-1)[0])
+        except Exception as e:
+            v = ("EXC", type(e).__name__, str(e)[:160])
+        o, scale = oracle_value(case)
+        print("from_json (grid spelled as", obj["spelling"], "):", v, " Kingman oracle:", o)
+        bad = isinstance(v, tuple) or not close(v, o, 1e-9, scale)
+        print("VIOLATES" if bad else "ok")
+        return 1 if bad else 0
+    if obj["case"].get("float32"):
+        import torch
+        import torchtree.evolution.coalescent as C
+
+        f32 = lambda xs: T(xs).to(torch.float32)  # noqa: E731
+        th = f32(case["thetas"])
+        try:
+            d = {"constant": lambda: C.ConstantCoalescent(th), "skyride": lambda: C.PiecewiseConstantCoalescent(th),
+                 "skygrid": lambda: C.PiecewiseConstantCoalescentGrid(th, f32(case["grid"])),
+                 "linear": lambda: C.PiecewiseLinearCoalescentGrid(th, f32(case["grid"])),
+                 "exponential": lambda: C.ExponentialCoalescent(th, f32([case["growth"]]))}[case["kind"]]()
+            v = float(d.log_prob(f32(samp + coal)).reshape(-1)[0])
+        except Exception as e:
+            v = ("EXC", type(e).__name__, str(e)[:160])
+        o, scale = oracle_value(case)
+        print("float32 evaluation:", v, " Kingman oracle on the held values:", o)
+        bad = isinstance(v, tuple) or not close(v, o, 2e-5, scale)
+        if obj.get("signature", "").endswith(":law"):
+            print("(scaling-law check; see 'what':", obj.get("what"), ")")
+            bad = True
+        print("VIOLATES" if bad else "ok")
+        return 1 if bad else 0
     v = impl_value(case, samp, coal)
     print("implementation:", v)
     try:
